@@ -130,6 +130,11 @@ class BruteSolver(IncrementalTrackingSolver):
 
     @clear_pending_pop
     def _pop(self, levels=1):
+        if self.fault_plan.get("interrupt_next_pop"):
+            # the user's Ctrl-C / a cancellation lands exactly here, before anything was popped
+            self.fault_plan["interrupt_next_pop"] = False
+            self._fire("interrupted_pop")
+            raise KeyboardInterrupt()
         self.b_counts["pop"] += 1
         self.b_log.append(("pop", levels))
         if levels > self.b_depth():
